@@ -358,7 +358,14 @@ class ShareMachine(ohist.Machine):
     def canon(self, impl, model):
         import hashlib
 
-        return tuple(None if m is None else hashlib.sha1(R.encode_block(m)).hexdigest() for m in model)
+        enc = tuple(None if m is None else hashlib.sha1(R.encode_block(m)).hexdigest() for m in model)
+        # which slots hold the *same* item objects (after dst.tracks = src.tracks): a state with shared
+        # items is not the same state as one with equal but separate items
+        def items(m):
+            return [] if m is None else [it[1] if isinstance(it, tuple) else it for it in m[self._key(m)]]
+        shared = tuple((i, j, sum(1 for x in items(model[i]) for y in items(model[j]) if x is y))
+                       for i in range(len(model)) for j in range(i + 1, len(model)))
+        return enc, shared
 
     def nontrivial(self, model):
         live = [R.encode_block(m) for m in model if m is not None]
